@@ -9,6 +9,7 @@ import (
 	"math/rand"
 	"runtime"
 	"sort"
+	"strings"
 	"time"
 
 	"verifharness/lab/batch"
@@ -177,6 +178,17 @@ func runRing(c ringCase, rep *batch.Report) batch.CaseResult {
 		for _, key := range targets {
 			want := ringlab.OwnerOf(ids, key)
 			got, err := start.Node.FindSuccessor(key)
+			// over the real RPC path the production 10 s RPC timeout is a wall-clock event: on a
+			// saturated machine it fires on a healthy ring. It never decides: the lookup is
+			// repeated, and one that keeps timing out is counted as indeterminate.
+			for try := 0; c.RPC && err != nil && strings.Contains(err.Error(), "context deadline exceeded") && try < 2; try++ {
+				rep.Count("rpc_lookups_repeated_after_transport_timeout", 1)
+				got, err = start.Node.FindSuccessor(key)
+			}
+			if c.RPC && err != nil && strings.Contains(err.Error(), "context deadline exceeded") {
+				rep.Count("rpc_lookups_indeterminate_transport_timeout", 1)
+				continue
+			}
 			lookups++
 			rel := "far"
 			switch {
@@ -207,6 +219,9 @@ func runRing(c ringCase, rep *batch.Report) batch.CaseResult {
 		}
 	}
 	rep.Count("lookups", int64(lookups))
+	if lookups == 0 {
+		res.Inconclusive = "no lookup of this ring could be judged (every one hit the transport timeout)"
+	}
 	if c.RPC {
 		rep.Count("rings_over_real_rpc", 1)
 	}
